@@ -488,7 +488,7 @@ func StandardWorld(name string) *World {
 		if name == "W1u" {
 			w.PriceMode = "unit"
 		}
-		w.Accounts = append(w.Accounts, GenAccount{Name: "o1", Bal: map[string]string{"BIP": "100u"}})
+		w.Accounts = append(w.Accounts, GenAccount{Name: "o1", Bal: map[string]string{"BIP": "30000u"}}) // enough for the reserve of a coin
 		w.Candidates = []GenCandidate{{Name: "v1", Owner: "o1", Reward: "o1", Control: "o1", Commission: 10, Validator: true, Stakes: []GenStake{{Owner: "o1", Coin: "BIP", Value: "1000u"}}}}
 		return w
 	case "WD": // durability: short periods so that payouts, validator updates and price updates happen every other block
